@@ -22,6 +22,8 @@ Not(e)       == [k |-> "not", e |-> e]
 Neg(e)       == [k |-> "neg", e |-> e]
 IfE(c,t,e)   == [k |-> "ife", c |-> c, t |-> t, e |-> e]
 Lam(ps,e)    == [k |-> "lam", ps |-> ps, e |-> e]                                  \* \x: T, y: U => e   (ps: parameters as in Fun; an anonymous function value)
+ListB(e,n,it,cs) == [k |-> "listb", e |-> e, n |-> n, it |-> it, cs |-> cs]        \* list builder  [e | n in it, c1, c2 ..]  (it: expression or Range)
+SetB(e,n,it,cs)  == [k |-> "setb", e |-> e, n |-> n, it |-> it, cs |-> cs]         \* set builder   {e | n in it, c1, c2 ..}
 IfEB(c,t,e)  == [k |-> "ife", c |-> c, t |-> t, e |-> e, blk |-> TRUE]             \* the same expression written in block form (only as the right-hand side of a definition)
 Call(f,a)    == [k |-> "call", f |-> f, args |-> a]
 MCall(o,m,a) == [k |-> "mcall", o |-> o, m |-> m, args |-> a]
